@@ -53,13 +53,14 @@ def parseDigits : List Char → Nat → Option Nat
     | none => none
     | some d => parseDigits r (acc * 10 + d)
 
+def stripPlus : List Char → List Char
+  | '+' :: r => r
+  | s => s
+
 /-- `str::parse::<uN>()`: an optional `+`, at least one digit, no overflow -/
 def parseUnsigned (max : Nat) (s : List Char) : Option Nat :=
-  let body := match s with
-    | '+' :: r => r
-    | _ => s
-  if body.isEmpty then none else
-  match parseDigits body 0 with
+  if (stripPlus s).isEmpty then none else
+  match parseDigits (stripPlus s) 0 with
   | none => none
   | some n => if n ≤ max then some n else none
 
